@@ -186,6 +186,8 @@ EXPAND_MAX = 160
 
 def eq(a, b):
     """value equality as a (possibly symbolic) bool"""
+    if a is b:
+        return True
     if a.cells is not None and b.cells is not None:
         if len(a.cells) != len(b.cells):
             return False
@@ -209,7 +211,8 @@ def eq(a, b):
         return b_and(*parts)
     _sk[0] += 1
     i = z3.BitVec("eqi!%d" % _sk[0], 64)
-    si = SInt(i, 0, sym.MAXI)
+    # the bound variable only matters below the length (guard), so it inherits the length's range
+    si = SInt(i, 0, max(0, sym.rng(a.length)[1] - 1))
     body = sym.b_implies(b_and(cmp("<=", 0, si), cmp("<", si, a.length)), cmp("==", a.get(si), b.get(si)))
     q = z3.ForAll([i], sym.bz(body)) if not isinstance(body, bool) else z3.BoolVal(body)
     return b_and(leq, sym.mkb(q))
